@@ -94,9 +94,10 @@ def call_term(entry, cfg):
     if k == 'setpgrp':
         return 'Setpgrp'
     if k == 'dup2':
-        if entry[1] not in S.FDNAME:
+        fdname = S.fdname_of(cfg['pipes']) if cfg.get('pipes') else S.FDNAME
+        if entry[1] not in fdname:
             raise Unmodelled('dup2 from unknown descriptor %r' % (entry,))
-        return '(Dup2 %s %s)' % (S.FDNAME[entry[1]], zlit(entry[2]))
+        return '(Dup2 %s %s)' % (fdname[entry[1]], zlit(entry[2]))
     if k == 'close':
         return '(Close %s)' % zlit(entry[1])
     if k == 'setgroups':
@@ -214,12 +215,19 @@ def judge(cfg, world, log, ending, exit_returns):
             return 'calls before execve are %r, expected %r' % (names[:i], want)
         d = {b[0] + (':%d' % b[2] if b[0] == 'dup2' else ''): b for b, _ in before}
         import c18_seam as S
-        if S.FDNAME.get(d['dup2:0'][1]) != ('FcgiSock' if cfg['fcgi'] else 'ChildStdin'):
-            return 'descriptor 0 has the wrong source'
-        if S.FDNAME.get(d['dup2:1'][1]) != 'ChildStdout':
-            return 'descriptor 1 has the wrong source'
-        if S.FDNAME.get(d['dup2:2'][1]) != ('ChildStdout' if cfg['redirect_stderr'] else 'ChildStderr'):
-            return 'descriptor 2 has the wrong source'
+        # the descriptor table of the child, whatever numbers the pipe ends have (they depend on which of 0/1/2
+        # supervisord had closed): each dup2 copies what the source refers to AT THAT MOMENT
+        pipes = cfg.get('pipes') or S.PIPES
+        table = {}
+        for b, br in before:
+            if b[0] == 'dup2' and br is None:
+                table[b[2]] = table.get(b[1], b[1])
+        want_fds = {0: S.FCGI_FD if cfg['fcgi'] else pipes['child_stdin'], 1: pipes['child_stdout'],
+                    2: pipes['child_stdout'] if cfg['redirect_stderr'] else pipes['child_stderr']}
+        for fdn in (0, 1, 2):
+            if table.get(fdn, fdn) != want_fds[fdn]:
+                return ('descriptor %d of the child refers to what was descriptor %r, not to the pipe end %r (pipe '
+                        'numbers %r)' % (fdn, table.get(fdn, fdn), want_fds[fdn], pipes))
         if [b[1] for b, _ in before if b[0] == 'close'] != list(range(3, cfg['minfds'])):
             return 'wrong descriptors closed'
         if 'setuid' in d and (d['setuid'][1] != cfg['uid'] or d['setgid'][1] != world['pw'][2]):
@@ -311,6 +319,18 @@ def grids(tier):
                                                     (False, '', True), (False, ''), (False, 0)):
         cfg, w = mk('none', d, u, env, urls, False, 3, False, group)
         out.append(('F_environment', cfg, w, KINDS2, False))
+    # N: every numbering of the pipe ends that make_pipes can obtain (supervisord running with any subset of 0/1/2 closed)
+    import c18_seam as S_
+    for closed in ([], [0], [1], [2], [0, 1], [0, 2], [1, 2], [0, 1, 2]):
+        for red, fcgi in itertools.product(B, B):
+            cfg, w = mk('none', True, True, ENV_CHOICES[2], URL_CHOICES[1], red, 3, fcgi, True)
+            cfg['pipes'] = S_.alloc_pipes(closed)
+            out.append(('N_numbering', cfg, w, KINDS2, False))
+    # E: transient-looking errnos at the dup2 calls (and everywhere else): any failing dup2 ends in exit 127, no exec
+    import errno as errno_
+    for user, red, fcgi in itertools.product(('none', 'root'), B, B):
+        cfg, w = mk(user, True, False, ENV_CHOICES[1], URL_CHOICES[0], red, 4, fcgi, True)
+        out.append(('E_errnos', cfg, w, [('os', errno_.EINTR), ('os', errno_.EBUSY), ('os', errno_.EAGAIN)], False))
     # C: more kinds of exception (second errno, unknown errno, BaseException)
     for d, u, fcgi in itertools.product(B, B, B):
         cfg, w = mk('root', d, u, ENV_CHOICES[2], URL_CHOICES[4], not fcgi, 4, fcgi, True)
@@ -493,6 +513,10 @@ CONF_TEMPLATES = [
     ('CONF="%(here)s/etc",N="%(process_num)d",APP_ROOT="%(ENV_APP_ROOT)s/x"', '%(here)s/tmp'),
     ('PATH="%(ENV_PATH)s:/extra/%(program_name)s"', '%(ENV_HOME)s'),
     (None, '%(here)s'),
+    # blanks inside the quotes belong to the value
+    ('SEP=" ",PROMPT="sup> ",LEAD="  two",MID="a b"', '%(here)s'),
+    # a literal directory, also configured (or not) as [supervisord] directory: the child must chdir all the same
+    (None, '@RUN@'),
 ]
 
 
@@ -508,9 +532,20 @@ def config_child_stream(chk, S, wd):
     loads = [('absolute', conf, None), ('relative', os.path.join('etc', 'supervisord.conf'), os.path.dirname(confdir)),
              ('bare', 'supervisord.conf', confdir)]
     n_proc = 0
-    for ti, (envt, dirt) in enumerate(CONF_TEMPLATES):
+    rundir = os.path.join(wd, 'cfgtie', 'run')
+    os.makedirs(rundir, exist_ok=True)
+    variants = []
+    for (envt, dirt) in CONF_TEMPLATES:
         for numprocs, start in ((1, 0), (2, 0), (3, 5)):
-            lines = ['[supervisord]', 'logfile=%s/s.log' % wd, 'pidfile=%s/s.pid' % wd, 'childlogdir=%s' % wd,
+            if dirt == '@RUN@':
+                if numprocs == 2:
+                    variants += [(envt, rundir, numprocs, start, sd) for sd in (None, rundir, wd)]
+            else:
+                variants.append((envt, dirt, numprocs, start, None))
+    for (envt, dirt, numprocs, start, supdir) in variants:
+        if True:
+            lines = ['[supervisord]', 'logfile=%s/s.log' % wd, 'pidfile=%s/s.pid' % wd, 'childlogdir=%s' % wd] + \
+                    (['directory=%s' % supdir] if supdir else []) + [
                      '[program:w]', 'command=/bin/cat -u', 'numprocs=%d' % numprocs, 'numprocs_start=%d' % start,
                      'process_name=%(program_name)s_%(process_num)d', 'stdout_logfile=NONE', 'stderr_logfile=NONE',
                      'directory=%s' % dirt]
